@@ -105,6 +105,10 @@ def monitor(cfg, op, o):
             out.append(("failed-tx-changed-state", f"{op} failed but the contract's storage/balances changed"))
         return out
     caller = op[1]
+    if k in ("Withdraw", "Redeem") and op[2] not in (1, 2):
+        out.append(("foreign-token-accepted", f"{op} succeeded: the payment was not a redeem token "
+                                              f"(returned {o['ret']} x {o['outs']}, caller wallet {o['dw'][caller]})"))
+        return out
     others = {u: d for u, d in o["dw"].items() if u != caller and any(d.values())}
     if k != "Xfer" and others:
         out.append(("other-accounts-changed", f"{op}: wallets of other accounts changed: {others}"))
